@@ -500,6 +500,11 @@ impl ItemizedBlock {
             line_start = itemized_block_quote_start(line, line_start, 2);
             indent = line_start.len();
         }
+        // The quote markers are rebuilt from their number, not copied from the line: `indent` may
+        // lie beyond the line (`> >`) or inside a character of it.
+        if !line.is_char_boundary(indent) {
+            return None;
+        }
         Some(ItemizedBlock {
             lines: vec![line[indent..].to_string()],
             indent,
